@@ -9,10 +9,11 @@ use elements::OutPoint;
 use serde_json::json;
 
 use crate::engine::*;
+use crate::gen::ext_g5 as gx;
 use crate::gen::pset::{self as gp, PsetOpts};
 use crate::gen::{self};
 use crate::refimpl::psetraw::{self, RawMap, RawPair};
-use crate::{ensure, ensure_eq};
+use crate::ensure;
 
 pub const KF_TAPTREE: &str = "taptree-codec-reverses-leaf-order";
 
@@ -85,40 +86,46 @@ pub fn first_diff(a: &[u8], b: &[u8]) -> String {
     )
 }
 
-fn roundtrip(t: &mut Tape, ctx: &mut Ctx) -> R {
-    let mut p = gp::gen_pset(t, &PsetOpts::default());
-    // ELIP-100 / ELIP-102 data set through the accessors
-    let mut elip: Vec<(elements::AssetId, AssetMetadata)> = Vec::new();
-    let mut elip_tok: Vec<(elements::AssetId, TokenMetadata)> = Vec::new();
-    let mut abfs: Vec<(bool, usize, AssetBlindingFactor)> = Vec::new();
-    if t.chance(80) {
-        let id = gen::gen_asset_id(t);
-        let l = t.below(60);
-        let contract: String = (0..l).map(|_| t.choose(&['{', '}', '"', 'a', ':', '1', ' ', 'é', 'x'])).collect();
-        let m = AssetMetadata::new(contract, OutPoint { txid: gen::gen_txid(t), vout: t.edgy_u32() });
-        let prev = guard::guard("add_asset_metadata", 0, || p.add_asset_metadata(id, &m))?;
-        ensure!(prev.is_none() || elip.iter().any(|(i, _)| *i == id), "add_asset_metadata reported a previous value on first insertion");
-        elip.push((id, m));
-        let tid = gen::gen_asset_id(t);
-        let tm = TokenMetadata::new(gen::gen_asset_id(t), t.bool());
-        guard::guard("add_token_metadata", 0, || p.add_token_metadata(tid, &tm))?;
-        elip_tok.push((tid, tm));
-    }
-    if t.chance(80) {
-        if !p.inputs().is_empty() {
-            let k = t.below(p.inputs().len());
-            let abf = crate::gen::ct::abf_from(t, 7);
-            p.inputs_mut()[k].set_abf(abf);
-            abfs.push((true, k, abf));
+/// data stored through the ELIP-100 / ELIP-102 accessors, to be read back after a hop
+#[derive(Default)]
+struct Extras {
+    elip: Vec<(elements::AssetId, AssetMetadata)>,
+    elip_tok: Vec<(elements::AssetId, TokenMetadata)>,
+    /// (is input, position, value)
+    abfs: Vec<(bool, usize, AssetBlindingFactor)>,
+}
+
+/// independent decoder of RFC 4648 base64 (standard alphabet; padding optional)
+fn ref_base64_decode(s: &str) -> Option<Vec<u8>> {
+    const ALPHABET: &[u8; 64] = b"ABCDEFGHIJKLMNOPQRSTUVWXYZabcdefghijklmnopqrstuvwxyz0123456789+/";
+    let mut out = Vec::with_capacity(s.len() / 4 * 3 + 3);
+    let (mut acc, mut bits) = (0u32, 0u32);
+    let mut padding = false;
+    for c in s.bytes() {
+        if c == b'=' {
+            padding = true;
+            continue;
         }
-        if !p.outputs().is_empty() {
-            let k = t.below(p.outputs().len());
-            let abf = crate::gen::ct::abf_from(t, 8);
-            p.outputs_mut()[k].set_abf(abf);
-            abfs.push((false, k, abf));
+        if padding {
+            return None;
+        }
+        let v = ALPHABET.iter().position(|a| *a == c)? as u32;
+        acc = (acc << 6) | v;
+        bits += 6;
+        if bits >= 8 {
+            bits -= 8;
+            out.push((acc >> bits) as u8);
+            acc &= (1 << bits) - 1;
         }
     }
-    let bytes = ser(&p)?;
+    Some(out)
+}
+
+/// The oracle of the first sentence of the statement for one well-formed PSET: binary and base64 hop
+/// give an equal PSET (tap trees leaf by leaf), the accessors return what was stored, the encoding is
+/// its own fixpoint. Returns the encoding and the base64 text.
+fn hop_oracle(p: &Pset, ex: &Extras, ctx: &mut Ctx) -> Result<(Vec<u8>, String), Failure> {
+    let bytes = ser(p)?;
     ctx.eval();
     let back = match de(&bytes)? {
         Ok(b) => b,
@@ -127,42 +134,84 @@ fn roundtrip(t: &mut Tape, ctx: &mut Ctx) -> R {
                 "a well-formed PSET does not deserialize from its own serialization: {} ({:?})\n features={:?}\n bytes={}",
                 e,
                 e,
-                gp::pset_features(&p),
+                gp::pset_features(p),
                 hex(&bytes)
             )))
         }
     };
-    if back != p {
+    if &back != p {
+        if back.inputs().len() + back.outputs().len() > 8 {
+            return Err(Failure::new(format!(
+                "deserialize(serialize(p)) != p (inputs {} / {}, outputs {} / {})\n bytes={}",
+                p.inputs().len(),
+                back.inputs().len(),
+                p.outputs().len(),
+                back.outputs().len(),
+                hex(&bytes)
+            )));
+        }
         return Err(Failure::new(format!("deserialize(serialize(p)) != p\n p   ={:?}\n back={:?}", p, back)));
     }
-    let (la, lb) = (gp::all_tap_leaves(&p), gp::all_tap_leaves(&back));
+    let (la, lb) = (gp::all_tap_leaves(p), gp::all_tap_leaves(&back));
     if la != lb {
         return Err(Failure::new(format!("tap tree leaves differ after a serialization hop: before={:?} after={:?}", la, lb)));
     }
     // base64 text
     let text = guard::guard("pset.to_string", 0, || p.to_string())?;
     match guard::guard("Pset::from_str", text.len(), || Pset::from_str(&text))? {
-        Ok(b2) => ensure!(pset_eq(&b2, &p), "from_str(to_string(p)) != p"),
+        Ok(b2) => ensure!(pset_eq(&b2, p), "from_str(to_string(p)) != p"),
         Err(e) => return Err(Failure::new(format!("from_str rejects the PSET's own base64 form: {}", e))),
     }
-    // accessors after the hop
-    for (id, m) in &elip {
-        match guard::guard("get_asset_metadata", 0, || back.get_asset_metadata(*id))? {
-            Some(Ok(g)) => ensure!(&g == m, "asset metadata differs after a hop: {:?} vs {:?}", g, m),
-            other => return Err(Failure::new(format!("asset metadata lost after a hop: {:?}", other.map(|r| r.is_ok())))),
+    // the text is base64 (RFC 4648 standard alphabet) of the binary serialization, by an independent decoder
+    match ref_base64_decode(&text) {
+        Some(b) if b == bytes => {}
+        Some(b) => return Err(Failure::new(format!("to_string(p) is not the base64 form of serialize(p); {}", first_diff(&bytes, &b)))),
+        None => {
+            return Err(Failure::new(format!(
+                "to_string(p) is not RFC 4648 base64 text: {}",
+                text.chars().take(120).collect::<String>()
+            )))
         }
     }
-    for (id, m) in &elip_tok {
+    // accessors after the hop
+    for (id, m) in &ex.elip {
+        match guard::guard("get_asset_metadata", 0, || back.get_asset_metadata(*id))? {
+            Some(Ok(g)) => ensure!(
+                &g == m,
+                "asset metadata differs after a hop (contract of {} bytes): got contract of {} bytes, prevout {:?} vs {:?}",
+                m.contract().len(),
+                g.contract().len(),
+                g.issuance_prevout(),
+                m.issuance_prevout()
+            ),
+            other => {
+                return Err(Failure::new(format!(
+                    "asset metadata (contract of {} bytes) lost after a hop: {:?}",
+                    m.contract().len(),
+                    other.map(|r| r.map(|_| ()).map_err(|e| e.to_string()))
+                )))
+            }
+        }
+    }
+    for (id, m) in &ex.elip_tok {
         match guard::guard("get_token_metadata", 0, || back.get_token_metadata(*id))? {
             Some(Ok(g)) => ensure!(&g == m, "token metadata differs after a hop"),
             other => return Err(Failure::new(format!("token metadata lost after a hop: {:?}", other.map(|r| r.is_ok())))),
         }
     }
-    for (is_in, k, abf) in &abfs {
-        let got = if *is_in { back.inputs()[*k].get_abf() } else { back.outputs()[*k].get_abf() };
+    for (is_in, k, abf) in &ex.abfs {
+        let got = if *is_in { back.inputs().get(*k).and_then(|i| i.get_abf()) } else { back.outputs().get(*k).and_then(|o| o.get_abf()) };
         match got {
             Some(Ok(g)) => ensure!(&g == abf, "ELIP-102 abf differs after a hop"),
-            other => return Err(Failure::new(format!("ELIP-102 abf lost after a hop: {:?}", other.map(|r| r.is_ok())))),
+            other => {
+                return Err(Failure::new(format!(
+                    "ELIP-102 abf {:?} of {} {} lost after a hop: {:?}",
+                    abf,
+                    if *is_in { "input" } else { "output" },
+                    k,
+                    other.map(|r| r.map(|_| ()).map_err(|e| e.to_string()))
+                )))
+            }
         }
     }
     // the encoding of a well-formed PSET is itself canonical
@@ -170,13 +219,54 @@ fn roundtrip(t: &mut Tape, ctx: &mut Ctx) -> R {
         Some(_) => {}
         None => return Err(Failure::new("own serialization rejected on second decode".to_string())),
     }
-    let c = ser(&back)?;
-    if c != bytes {
-        let tap = p.outputs().iter().any(|o| o.tap_tree.is_some());
-        if !(tap && ctx.is_known(KF_TAPTREE)) {
+    // `back == p` makes the re-encoding of `back` equal to `bytes` whenever equality is structural; it is
+    // not for tap trees (TapTree compares root hashes only, and a branch hash is symmetric in its
+    // children), so PSETs with a tap tree of >= 2 leaves are left to the fixpoint clause above
+    let multi_leaf = p.outputs().iter().filter_map(|o| o.tap_tree.as_ref()).any(|tt| gp::tap_tree_leaves(tt).len() >= 2);
+    if !multi_leaf {
+        let c = ser(&back)?;
+        if c != bytes {
             return Err(Failure::new(format!("serialize(deserialize(serialize(p))) != serialize(p); {}", first_diff(&bytes, &c))));
         }
     }
+    Ok((bytes, text))
+}
+
+fn roundtrip(t: &mut Tape, ctx: &mut Ctx) -> R {
+    let mut p = gp::gen_pset(t, &PsetOpts::default());
+    // ELIP-100 / ELIP-102 data set through the accessors
+    let mut ex = Extras::default();
+    if t.chance(80) {
+        let id = gen::gen_asset_id(t);
+        let l = t.below(60);
+        let contract: String = (0..l).map(|_| t.choose(&['{', '}', '"', 'a', ':', '1', ' ', 'é', 'x'])).collect();
+        let m = AssetMetadata::new(contract, OutPoint { txid: gen::gen_txid(t), vout: t.edgy_u32() });
+        let prev = guard::guard("add_asset_metadata", 0, || p.add_asset_metadata(id, &m))?;
+        if prev.is_some() {
+            // (the return value of add_* is outside the statement: counted, not asserted)
+            ctx.class("elip100:add-returned-a-previous-value");
+        }
+        ex.elip.push((id, m));
+        let tid = gen::gen_asset_id(t);
+        let tm = TokenMetadata::new(gen::gen_asset_id(t), t.bool());
+        guard::guard("add_token_metadata", 0, || p.add_token_metadata(tid, &tm))?;
+        ex.elip_tok.push((tid, tm));
+    }
+    if t.chance(80) {
+        if !p.inputs().is_empty() {
+            let k = t.below(p.inputs().len());
+            let abf = crate::gen::ct::abf_from(t, 7);
+            p.inputs_mut()[k].set_abf(abf);
+            ex.abfs.push((true, k, abf));
+        }
+        if !p.outputs().is_empty() {
+            let k = t.below(p.outputs().len());
+            let abf = crate::gen::ct::abf_from(t, 8);
+            p.outputs_mut()[k].set_abf(abf);
+            ex.abfs.push((false, k, abf));
+        }
+    }
+    let (bytes, text) = hop_oracle(&p, &ex, ctx)?;
     let feats = gp::pset_features(&p);
     for f in &feats {
         ctx.class(&format!("feature:{}", f));
@@ -189,12 +279,265 @@ fn roundtrip(t: &mut Tape, ctx: &mut Ctx) -> R {
     if feats.iter().any(|f| ["in-taproot", "preimages", "pegin-fields", "proof-fields"].contains(f)) || multi_leaf {
         ctx.nontrivial(&bytes);
     }
-    let cls = format!("pset:{}", feats.join("+"));
     if ctx.wants_sample("pset") && feats.len() >= 3 {
         ctx.sample("pset", || json!({"inputs": p.inputs().len(), "outputs": p.outputs().len(), "features": feats, "encoded_len": bytes.len(),
             "base64_prefix": text.chars().take(60).collect::<String>()}));
     }
-    let _ = cls;
+    Ok(())
+}
+
+/// insert_input shifts every blinder index >= pos by one: keep the indices of the generated outputs inside
+/// the input range (unmarked outputs may carry any u32) so that the shift stays representable. (With
+/// blinder_index == u32::MAX, insert_input panics with `attempt to add with overflow` in a build with overflow
+/// checks: outside this property, excluded here by construction.)
+fn clamp_blinder_indices(p: &mut Pset) {
+    let nin = p.inputs().len().max(1);
+    for o in p.outputs_mut() {
+        if let Some(i) = o.blinder_index {
+            if i as usize >= nin {
+                o.blinder_index = Some((i as usize % nin) as u32);
+            }
+        }
+    }
+}
+
+/// 1..3 edits through the count-maintaining API: insert / remove an input / output at a tape-chosen position
+fn apply_history(t: &mut Tape, p: &mut Pset, ctx: &mut Ctx) -> R {
+    clamp_blinder_indices(p);
+    let n = 1 + t.below(3);
+    for _ in 0..n {
+        match t.below(4) {
+            0 => {
+                let pos = t.below(p.inputs().len() + 1);
+                let i = gp::gen_input(t, 60);
+                clamp_blinder_indices(p);
+                guard::guard("insert_input", 0, || p.insert_input(i, pos))?;
+                ctx.class("ext:history:insert_input");
+            }
+            1 => {
+                let pos = t.below(p.outputs().len() + 1);
+                let o = gp::gen_output(t, 60, p.inputs().len());
+                guard::guard("insert_output", 0, || p.insert_output(o, pos))?;
+                ctx.class("ext:history:insert_output");
+            }
+            2 => {
+                if p.inputs().is_empty() {
+                    let i = gp::gen_input(t, 60);
+                    clamp_blinder_indices(p);
+                    guard::guard("insert_input", 0, || p.insert_input(i, 0))?;
+                    ctx.class("ext:history:insert_input");
+                } else {
+                    let k = t.below(p.inputs().len());
+                    let r = guard::guard("remove_input", 0, || p.remove_input(k))?;
+                    ensure!(r.is_some(), "remove_input({}) of a PSET with {} inputs returned None", k, p.inputs().len());
+                    ctx.class("ext:history:remove_input");
+                }
+            }
+            _ => {
+                if p.outputs().is_empty() {
+                    let o = gp::gen_output(t, 60, p.inputs().len());
+                    guard::guard("insert_output", 0, || p.insert_output(o, 0))?;
+                    ctx.class("ext:history:insert_output");
+                } else {
+                    let k = t.below(p.outputs().len());
+                    let r = guard::guard("remove_output", 0, || p.remove_output(k))?;
+                    ensure!(r.is_some(), "remove_output({}) of a PSET with {} outputs returned None", k, p.outputs().len());
+                    ctx.class("ext:history:remove_output");
+                }
+            }
+        }
+    }
+    Ok(())
+}
+
+/// roundtrip over the shapes the shared generator does not reach (review g5, C07-2..6): every case applies
+/// one or two extensions to a generated PSET and runs the same oracle as `roundtrip`
+fn roundtrip_ext(t: &mut Tape, ctx: &mut Ctx) -> R {
+    use elements::pset::raw::ProprietaryKey;
+    let mut p = gp::gen_pset(t, &PsetOpts::default());
+    let mut ex = Extras::default();
+    let mut shapes: Vec<&'static str> = Vec::new();
+    let n_ext = 1 + t.below(2);
+    for _ in 0..n_ext {
+        match t.below(11) {
+            0 => {
+                // values the shared generators never draw: the zero tweak as issuance blinding nonce (what
+                // Input::from_txin stores for every new issuance), the zero asset blinding factor, a
+                // pset-prefixed output key of the unassigned subtype 0x00
+                if p.inputs().is_empty() {
+                    p.add_input(gp::gen_input(t, 40));
+                }
+                if p.outputs().is_empty() {
+                    let n = p.inputs().len();
+                    p.add_output(gp::gen_output(t, 40, n));
+                }
+                let which = t.below(3);
+                if which == 0 {
+                    let k = t.below(p.inputs().len());
+                    p.inputs_mut()[k].issuance_blinding_nonce = Some(elements::secp256k1_zkp::ZERO_TWEAK);
+                    shapes.push("zero-issuance-nonce");
+                } else if which == 1 {
+                    let abf = gx::zero_abf();
+                    if t.bool() {
+                        let k = t.below(p.inputs().len());
+                        p.inputs_mut()[k].set_abf(abf);
+                        ex.abfs.retain(|(is_in, j, _)| !(*is_in && *j == k));
+                        ex.abfs.push((true, k, abf));
+                    } else {
+                        let k = t.below(p.outputs().len());
+                        p.outputs_mut()[k].set_abf(abf);
+                        ex.abfs.retain(|(is_in, j, _)| !(!*is_in && *j == k));
+                        ex.abfs.push((false, k, abf));
+                    }
+                    shapes.push("zero-abf");
+                } else {
+                    let k = t.below(p.outputs().len());
+                    let kl = t.below(5);
+                    let key = ProprietaryKey { prefix: b"pset".to_vec(), subtype: 0x00, key: t.bytes(kl) };
+                    let vl = t.below(12);
+                    p.outputs_mut()[k].proprietary.insert(key, t.bytes(vl));
+                    shapes.push("output-pset-subtype-0x00");
+                }
+            }
+            1 | 2 => {
+                apply_history(t, &mut p, ctx)?;
+                // positions moved: accessor expectations recorded so far refer to old positions
+                ex.abfs.clear();
+                shapes.push("history-edits");
+            }
+            3 => {
+                // a decoded PSET is edited and encoded again
+                let b = ser(&p)?;
+                let mut q = match de(&b)? {
+                    Ok(q) => q,
+                    Err(e) => return Err(Failure::new(format!("a well-formed PSET does not deserialize from its own serialization: {}\n bytes={}", e, hex(&b)))),
+                };
+                clamp_blinder_indices(&mut q);
+                if t.bool() {
+                    let i = gp::gen_input(t, 60);
+                    guard::guard("add_input", 0, || q.add_input(i))?;
+                } else {
+                    let o = gp::gen_output(t, 60, q.inputs().len());
+                    guard::guard("add_output", 0, || q.add_output(o))?;
+                }
+                if t.bool() {
+                    apply_history(t, &mut q, ctx)?;
+                }
+                p = q;
+                ex.abfs.clear();
+                shapes.push("decoded-then-edited");
+            }
+            4 => {
+                // unknown pair whose raw key length sits at the compact-size boundary
+                let vl = t.below(8);
+                match t.below(3) {
+                    1 if !p.inputs().is_empty() => {
+                        let k = t.below(p.inputs().len());
+                        let key = gx::gen_long_unknown_key(t, 1);
+                        p.inputs_mut()[k].unknown.insert(key, t.bytes(vl));
+                    }
+                    2 if !p.outputs().is_empty() => {
+                        let k = t.below(p.outputs().len());
+                        let key = gx::gen_long_unknown_key(t, 2);
+                        p.outputs_mut()[k].unknown.insert(key, t.bytes(vl));
+                    }
+                    _ => {
+                        let key = gx::gen_long_unknown_key(t, 0);
+                        p.global.unknown.insert(key, t.bytes(vl));
+                    }
+                }
+                shapes.push("long-unknown-key");
+            }
+            5 => {
+                let vl = t.below(8);
+                match t.below(3) {
+                    1 if !p.inputs().is_empty() => {
+                        let k = t.below(p.inputs().len());
+                        let key = gx::gen_long_prop_key(t, 1);
+                        p.inputs_mut()[k].proprietary.insert(key, t.bytes(vl));
+                    }
+                    2 if !p.outputs().is_empty() => {
+                        let k = t.below(p.outputs().len());
+                        let key = gx::gen_long_prop_key(t, 2);
+                        p.outputs_mut()[k].proprietary.insert(key, t.bytes(vl));
+                    }
+                    _ => {
+                        let key = gx::gen_long_prop_key(t, 0);
+                        p.global.proprietary.insert(key, t.bytes(vl));
+                    }
+                }
+                shapes.push("long-proprietary-key");
+            }
+            6 => {
+                if p.inputs().is_empty() {
+                    p.add_input(gp::gen_input(t, 40));
+                }
+                let k = t.below(p.inputs().len());
+                if let Some(cb) = gx::gen_deep_control_block(t) {
+                    let depth = cb.merkle_branch.as_inner().len();
+                    p.inputs_mut()[k].tap_scripts.insert(cb, (gen::gen_script(t, false), gp::gen_leaf_version(t)));
+                    shapes.push(if depth >= 127 { "control-block-depth>=127" } else { "control-block-depth-6..8" });
+                }
+            }
+            7 => {
+                if p.outputs().is_empty() {
+                    let n = p.inputs().len();
+                    p.add_output(gp::gen_output(t, 40, n));
+                }
+                let k = t.below(p.outputs().len());
+                if let Some((tt, maxd)) = gx::gen_deep_tap_tree(t) {
+                    p.outputs_mut()[k].tap_tree = Some(tt);
+                    shapes.push(if maxd >= 127 { "tap-tree-depth>=127" } else { "tap-tree-depth-21..64" });
+                }
+            }
+            8 | 9 => {
+                // ELIP-100: 1..3 assets, contract lengths on both sides of the 253-byte boundary
+                let n = 1 + t.below(3);
+                for _ in 0..n {
+                    let id = gen::gen_asset_id(t);
+                    let (contract, label) = gx::gen_contract(t);
+                    let m = AssetMetadata::new(contract, OutPoint { txid: gen::gen_txid(t), vout: t.edgy_u32() });
+                    guard::guard("add_asset_metadata", 0, || p.add_asset_metadata(id, &m))?;
+                    ex.elip.retain(|(i, _)| *i != id);
+                    ex.elip.push((id, m));
+                    ctx.class(&format!("ext:elip100-contract-len:{}", label));
+                    if t.bool() {
+                        let tid = gen::gen_asset_id(t);
+                        let tm = TokenMetadata::new(gen::gen_asset_id(t), t.bool());
+                        guard::guard("add_token_metadata", 0, || p.add_token_metadata(tid, &tm))?;
+                        ex.elip_tok.retain(|(i, _)| *i != tid);
+                        ex.elip_tok.push((tid, tm));
+                    }
+                }
+                shapes.push(if n >= 2 { "elip100-several-assets" } else { "elip100-one-asset" });
+            }
+            _ => {
+                // >= 253 maps: the declared count needs a 3-byte compact size
+                let target = t.choose(&gx::BIG_COUNTS);
+                if t.bool() {
+                    let have = p.inputs().len();
+                    gx::add_minimal_inputs(t, &mut p, target.saturating_sub(have));
+                    shapes.push("inputs>=252");
+                } else {
+                    let have = p.outputs().len();
+                    gx::add_minimal_outputs(t, &mut p, target.saturating_sub(have));
+                    shapes.push("outputs>=252");
+                }
+            }
+        }
+    }
+    let (bytes, _text) = hop_oracle(&p, &ex, ctx)?;
+    for s in &shapes {
+        ctx.class(&format!("ext:{}", s));
+    }
+    if !shapes.is_empty() {
+        ctx.nontrivial(&bytes);
+    }
+    if let Some(s) = shapes.first() {
+        if ctx.wants_sample(s) {
+            ctx.sample(s, || json!({"shapes": shapes, "inputs": p.inputs().len(), "outputs": p.outputs().len(), "encoded_len": bytes.len()}));
+        }
+    }
     Ok(())
 }
 
@@ -360,6 +703,220 @@ fn byte_variants(t: &mut Tape, ctx: &mut Ctx) -> R {
     Ok(())
 }
 
+/// raw key of a `pset`-prefixed proprietary field without key data: fc 04 'pset' <subtype>
+fn pset_key(subtype: u8) -> Vec<u8> {
+    vec![0xfc, 0x04, b'p', b's', b'e', b't', subtype]
+}
+
+fn compact_size_bytes(n: u64) -> Vec<u8> {
+    let mut v = Vec::new();
+    crate::refimpl::enc::compact_size(&mut v, n);
+    v
+}
+
+/// further raw re-framings of valid encodings (review g5, C07-1 / C07-4 / C07-7)
+fn variants_ext(t: &mut Tape, ctx: &mut Ctx) -> R {
+    let mut p = gp::gen_pset(t, &PsetOpts::default());
+    if p.outputs().is_empty() {
+        let n = p.inputs().len();
+        p.add_output(gp::gen_output(t, 100, n));
+    }
+    let kind = t.below(11);
+    if kind == 10 {
+        // the declared count becomes a 3-byte compact size
+        let target = t.choose(&gx::BIG_COUNTS);
+        if t.bool() {
+            let have = p.inputs().len();
+            gx::add_minimal_inputs(t, &mut p, target.saturating_sub(have));
+        } else {
+            let have = p.outputs().len();
+            gx::add_minimal_outputs(t, &mut p, target.saturating_sub(have));
+        }
+    }
+    let bytes = ser(&p)?;
+    let Some(maps) = psetraw::split(&bytes) else {
+        return Err(Failure::panic("raw splitter cannot split a library encoding".to_string(), "src/refimpl/psetraw.rs".into()));
+    };
+    if psetraw::join(&maps) != bytes {
+        return Err(Failure::panic("raw splitter does not re-join identically".to_string(), "src/refimpl/psetraw.rs".into()));
+    }
+    let nin = p.inputs().len();
+    let nout = p.outputs().len();
+    if maps.len() != 1 + nin + nout {
+        return Err(Failure::new(format!("the encoding of a PSET with {} inputs and {} outputs has {} maps\n bytes={}", nin, nout, maps.len(), hex(&bytes))));
+    }
+    let mut m: Vec<RawMap> = maps.clone();
+    let label: &'static str;
+    let mut must_reject = false;
+    let mut spliced: Option<Vec<u8>> = None;
+    match kind {
+        0..=3 => {
+            // an output map loses a field the format makes mandatory (the fields present are read from the
+            // generated value, not from the library's predicates)
+            let oi = t.below(nout);
+            let o = &p.outputs()[oi];
+            let marked = o.blinding_key.is_some();
+            let complete = marked
+                && o.amount_comm.is_some()
+                && o.asset_comm.is_some()
+                && o.value_rangeproof.is_some()
+                && o.asset_surjection_proof.is_some()
+                && o.ecdh_pubkey.is_some();
+            let mut options: Vec<&'static str> = vec!["delete-output-amount(+commitment)", "delete-output-asset(+commitment)"];
+            if marked {
+                options.push("delete-blinder-index-beside-blinding-key");
+            }
+            if complete {
+                options.push("delete-part-of-complete-blinding-data");
+                options.push("delete-part-of-complete-blinding-data");
+            }
+            // the later (rarer) options first
+            options.reverse();
+            label = options[t.below(options.len())];
+            let doomed: Vec<Vec<u8>> = match label {
+                "delete-output-amount(+commitment)" => vec![vec![0x03], pset_key(0x01)],
+                "delete-output-asset(+commitment)" => vec![pset_key(0x02), pset_key(0x03)],
+                "delete-blinder-index-beside-blinding-key" => vec![pset_key(0x08)],
+                _ => {
+                    // a non-empty proper subset of the five members (blinding key and index stay)
+                    let mask = 1 + t.below(30);
+                    [0x01u8, 0x03, 0x04, 0x05, 0x07].iter().enumerate().filter(|(i, _)| mask >> i & 1 == 1).map(|(_, s)| pset_key(*s)).collect()
+                }
+            };
+            let mi = 1 + nin + oi;
+            let before = m[mi].len();
+            m[mi].retain(|pr| !doomed.contains(&pr.key));
+            if m[mi].len() == before {
+                return Err(Failure::panic(format!("no pair to delete for {} in output {}", label, oi), "src/props/c07.rs".into()));
+            }
+            must_reject = true;
+        }
+        4 => {
+            label = "key-data-byte-mutated";
+            let mi = t.below(m.len());
+            let cands: Vec<usize> = m[mi].iter().enumerate().filter(|(_, pr)| pr.key.len() > 1).map(|(i, _)| i).collect();
+            if cands.is_empty() {
+                return Ok(());
+            }
+            let pi = cands[t.below(cands.len())];
+            let k = &mut m[mi][pi].key;
+            let at = 1 + t.below(k.len() - 1);
+            k[at] ^= 1 << t.below(8);
+        }
+        5 => {
+            label = "key-type-byte-mutated";
+            let mi = t.below(m.len());
+            if m[mi].is_empty() {
+                return Ok(());
+            }
+            let pi = t.below(m[mi].len());
+            let k = &mut m[mi][pi].key;
+            if t.bool() {
+                k[0] ^= 1 << t.below(8);
+            } else {
+                k[0] = t.u8();
+            }
+        }
+        6 => {
+            label = "value-emptied";
+            let mi = t.below(m.len());
+            let cands: Vec<usize> = m[mi].iter().enumerate().filter(|(_, pr)| !pr.value.is_empty()).map(|(i, _)| i).collect();
+            if cands.is_empty() {
+                return Ok(());
+            }
+            let pi = cands[t.below(cands.len())];
+            m[mi][pi].value.clear();
+        }
+        7 => {
+            label = "values-swapped";
+            let mi = t.below(m.len());
+            if m[mi].len() < 2 {
+                return Ok(());
+            }
+            let a = t.below(m[mi].len());
+            let b = t.below(m[mi].len());
+            if a == b || m[mi][a].value == m[mi][b].value {
+                return Ok(());
+            }
+            let va = m[mi][a].value.clone();
+            m[mi][a].value = std::mem::replace(&mut m[mi][b].value, va);
+        }
+        8 | 9 => {
+            // tape bytes spliced into a valid encoding (what blind raw bytes never reach)
+            label = "bytes-spliced";
+            let mut b = bytes.clone();
+            let at = t.below(b.len());
+            let n = 1 + t.below(6);
+            match t.below(4) {
+                0 => {
+                    for i in 0..n {
+                        if at + i < b.len() {
+                            b[at + i] = t.u8();
+                        }
+                    }
+                }
+                1 => {
+                    let ins = t.bytes(n);
+                    b.splice(at..at, ins);
+                }
+                2 => {
+                    let end = (at + n).min(b.len());
+                    b.drain(at..end);
+                }
+                _ => {
+                    // the tail of one encoding replaced by tape bytes
+                    b.truncate(at.max(5));
+                    let tail = t.below(24);
+                    b.extend(t.bytes(tail));
+                }
+            }
+            spliced = Some(b);
+        }
+        _ => {
+            // +-1 on a declared count of >= 252 (1-byte <-> 3-byte compact size)
+            label = "big-count-changed";
+            let (w, have) = if nin >= 0xfc { (0x04u8, nin) } else { (0x05u8, nout) };
+            let new = if t.bool() { have + 1 } else { have - 1 };
+            let mut changed = false;
+            for pr in m[0].iter_mut() {
+                if pr.key == [w] {
+                    pr.value = compact_size_bytes(new as u64);
+                    changed = true;
+                }
+            }
+            if !changed {
+                return Err(Failure::new(format!("the global map of a library encoding has no count pair {:02x}\n bytes={}", w, hex(&bytes[..bytes.len().min(200)]))));
+            }
+            must_reject = true;
+        }
+    }
+    let b2 = spliced.unwrap_or_else(|| psetraw::join(&m));
+    if b2 == bytes {
+        return Ok(());
+    }
+    let accepted = fixpoint(&b2, ctx)?;
+    if must_reject {
+        if let Some(p2) = &accepted {
+            let shown = if b2.len() > 700 { format!("{}... ({} bytes)", hex(&b2[..700]), b2.len()) } else { hex(&b2) };
+            return Err(Failure::new(format!(
+                "a PSET encoding with `{}` was accepted (missing mandatory field / incomplete blinding data / count mismatch must be rejected)\n decoded inputs={} outputs={}\n variant={}",
+                label,
+                p2.inputs().len(),
+                p2.outputs().len(),
+                shown
+            )));
+        }
+    }
+    ctx.class(&format!("xvariant:{}:{}", label, if accepted.is_some() { "accepted" } else { "rejected" }));
+    if accepted.is_some() || must_reject {
+        ctx.nontrivial(&b2);
+    }
+    if ctx.wants_sample(label) {
+        ctx.sample(label, || json!({"variant": label, "accepted": accepted.is_some(), "len": b2.len(), "maps": m.len()}));
+    }
+    Ok(())
+}
+
 /// raw bytes (fuzz entry and replay format): the tape is the PSET wire string
 fn raw_bytes(t: &mut Tape, ctx: &mut Ctx) -> R {
     let n = t.remaining();
@@ -473,19 +1030,37 @@ pub fn property() -> Property {
                optional fields present with a tape-chosen density; map sizes 0..3; tap trees of random shape up to 24 leaves; \
                blinding absent / requested / complete; foreign and pset-prefixed proprietary keys, unknown key types; \
                ELIP-100/102 data through the accessors); oracle: deserialize(serialize(p)) == p (tap trees compared leaf by \
-               leaf), base64 text round trip, accessors return what was stored after a hop, serialization is its own \
-               fixpoint. byte_variants: raw key/value re-framings of valid encodings (reorder, duplicate, delete mandatory, \
+               leaf), base64 text round trip and the text decodes to the same bytes with an independent RFC 4648 decoder, \
+               accessors return what was stored after a hop, the serialization is its own fixpoint (and, without a \
+               multi-leaf tap tree, the re-encoding of the decoded value is byte-identical). roundtrip_ext: the same oracle \
+               after one or two extensions of a generated PSET: raw keys at the compact-size boundary (unknown keys with \
+               0xfa..0x100 bytes of key data, proprietary prefixes / keys of 0xfc..300 bytes, control blocks with 6..8 / \
+               127 / 128 nodes), caterpillar tap trees of depth 21 / 64 / 127 / 128, ELIP-100 contracts of 0 / <60 / \
+               0xfc / 0xfd / 0xfe / 0x100 / 300 / 1000 bytes for 1..3 assets, 252..256 input or output maps (3-byte count), \
+               histories of insert_input / insert_output / remove_input / remove_output (also on a decoded PSET), the zero \
+               tweak as issuance nonce, the zero ABF, a pset-prefixed output key of subtype 0x00. byte_variants: raw \
+               key/value re-framings of valid encodings (reorder, duplicate, delete mandatory, \
                delete optional, count change, preimage flip, unknown pair, value mutation); oracle: accepted => c = \
                encode(decode(b)) decodes to an equal PSET and re-encodes to itself; duplicates, missing mandatory fields, \
-               count mismatches, invalid preimages => Err. vectors: the repository's 30 PSET vectors + 40 byte mutants \
-               each. Non-trivial: >=1 taproot / preimage / pegin / proof field or tap tree with >=2 leaves; accepted or \
-               must-reject variants; distinct by encoding.",
-        assumptions: &["the raw splitter is checked to re-join every library encoding identically before it is used"],
+               count mismatches, invalid preimages => Err. variants_ext: an output map loses its amount and amount \
+               commitment / its asset and asset commitment / the blinder index beside a blinding key / a proper part of \
+               complete blinding data => Err; a declared count of 252..256 changed by one => Err; key-data byte, key-type \
+               byte mutated, value emptied, two values swapped, tape bytes spliced into the encoding => fixpoint oracle. \
+               vectors: the repository's 30 PSET vectors + 40 byte mutants \
+               each. Non-trivial: >=1 taproot / preimage / pegin / proof field or tap tree with >=2 leaves; every extended \
+               shape; accepted or must-reject variants; distinct by encoding.",
+        assumptions: &[
+            "the raw splitter is checked to re-join every library encoding identically before it is used",
+            "PSETs built through add_/insert_/remove_ input/output are well-formed (the declared counts are private to the library)",
+            "base64 text means RFC 4648 base64 with the standard alphabet (BIP174); padding is not asserted",
+        ],
         subs: vec![
             Sub { name: "roundtrip", kind: Kind::Tape { max_len: 6000, quick: 64_000, thorough: 1_000_000, f: roundtrip } },
             Sub { name: "byte_variants", kind: Kind::Tape { max_len: 6000, quick: 240_000, thorough: 3_200_000, f: byte_variants } },
             Sub { name: "vectors", kind: Kind::Index { count: |t| t.pick(30, 600), exhaustive: false, f: vectors } },
             Sub { name: "raw_bytes", kind: Kind::Tape { max_len: 400, quick: 160_000, thorough: 1_600_000, f: raw_bytes } },
+            Sub { name: "roundtrip_ext", kind: Kind::Tape { max_len: 6000, quick: 24_000, thorough: 800_000, f: roundtrip_ext } },
+            Sub { name: "variants_ext", kind: Kind::Tape { max_len: 6000, quick: 120_000, thorough: 2_400_000, f: variants_ext } },
         ],
         known: vec![Known { key: KF_TAPTREE, what: "the tap-tree codec reverses the leaf order on every hop: encode(decode(b)) alternates between two byte strings", repro: repro_taptree }],
     }
